@@ -288,7 +288,7 @@ static void build_ctx(Ctx& C, const System& sys, int tier) {
     C.namesB = param_names();
     capture([&] { masa_init<LD>("ra", g_red->A); masa_init<double>("ra", g_red->A); });
   } else
-    capture([&] { masa_init<LD>("e1", sys.name); masa_init<double>("e1", sys.name); });
+    capture([&] { masa_init<LD>("e1", sys.sol()); masa_init<double>("e1", sys.sol()); });
   std::vector<std::string> names = param_names();
   C.dflt.clear();
   for (auto& n : names) C.dflt.push_back((LD)(double)masa_get_param<LD>(n));
@@ -384,7 +384,7 @@ static int do_replay() {
   fclose(f);
   const System* sys = 0; for (auto& s : e1_systems()) if (s.name == system) sys = &s;
   if (!sys) { fprintf(stderr, "unknown system %s\n", system.c_str()); return 2; }
-  capture([&] { masa_init<LD>("e1", sys->name); masa_init<double>("e1", sys->name); });
+  capture([&] { masa_init<LD>("e1", sys->sol()); masa_init<double>("e1", sys->sol()); });
   set_all(P);
   Pt p; // find expectations at the point that has these args: rebuild point from args via the system's reference at a synthetic point
   std::vector<Expect> ex; bool found = false; int rc = 0;
